@@ -25,6 +25,7 @@ EXPLANATION = (
     "the air space; R18.4 the load is accounted BEFORE the frame is handed to the receiver (sibling agreement between "
     "Link.transmit_frame and AirSpace.transmit) - otherwise a reply sent during delivery is admitted against a stale "
     "load - and the accounted amount is the same frame.size_Mbits the admission test used. R18.5 the numeric settings this property depends on are never tested by truthiness (`x or default`, `if x:`) - 0 is a legal value for them. "
+    "R18.6 every interface class answers the constant True from receive_frame once it has handed the frame to its node (the link rolls its load back on False). "
     "NOT decided: the numeric "
     "bound itself over all traffic patterns (runtime arithmetic)."
 )
@@ -229,10 +230,47 @@ def r18_4(ctx: Ctx) -> None:
                        f"`{unparse(st.ast)[:60]}` overwrites the counter after delivery: the load of frames sent during the delivery is lost", path_text(p))
 
 
+def r18_6(ctx: Ctx) -> None:
+    """Link.transmit_frame takes the load back when the receiving interface answers False ("frame not taken off the wire").  What
+    the device behind the interface then does with the frame is not the link's business: once an interface has handed the frame to
+    its node, it answers True - in every interface class alike (sibling agreement)."""
+    ix = ctx.ix
+    ctx.rule("R18.6", "every interface's receive_frame answers the constant True on each path that hands the frame to its node (the "
+                      "load of a frame that crossed the link is never rolled back because of what happens further on)")
+    base = ix.cls("NetworkInterface")
+    n = 0
+    for c in [base] + list(ix.subclasses(base)):
+        f = c.methods.get("receive_frame")
+        if f is None or isinstance(f.node, ast.Lambda):
+            continue
+        g = CFG(f.node)
+        hand = [x for x in g.nodes if any(call_name(k) == "receive_frame" and isinstance(k.func, ast.Attribute)
+                                          and "_connected_node" in unparse(k.func.value) for k in node_calls(x))]
+        if not hand:
+            continue
+        n += 1
+        bad = []
+        for h in hand:
+            if isinstance(h.ast, ast.Return):
+                bad.append(f"L{h.src_lineno}: returns the node's own answer")
+                continue
+            for r in g.nodes:
+                if r.kind == "stmt" and isinstance(r.ast, ast.Return) and g.path_avoiding([r], lambda e: False, start=h) is not None:
+                    v = r.ast.value
+                    if not (isinstance(v, ast.Constant) and v.value is True):
+                        bad.append(f"L{r.src_lineno}: `{unparse(r.ast)[:50]}` after the hand-over")
+        ctx.record("R18.6", ctx.key(f, "answers True once the frame is handed to the node"), f.loc(), not bad,
+                   "constant True after the hand-over" if not bad else
+                   "the answer depends on what the node did with the frame: Link.transmit_frame rolls the load back on False although the "
+                   "frame crossed the link", bad)
+    ctx.floor("R18.6", "interface classes with their own receive_frame", n, 3)
+
+
 def check(ctx: Ctx) -> None:
     r18_1(ctx)
     r18_2(ctx)
     r18_3(ctx)
     r18_4(ctx)
+    r18_6(ctx)
     from .common import falsy_numeric
     falsy_numeric(ctx, "R18.5", r"bandwidth|capacity|speed|load", "bandwidths, capacities and loads")
